@@ -108,6 +108,8 @@ func readersScenario(name, mode string, readers []readerSpec) vx.Scenario {
 				switch {
 				case err == nil && row.ID == rowIDOf(rs.key):
 					res = "row:" + row.V
+				case err == nil && row == (Row{}):
+					res = "err:empty-row"
 				case err == nil:
 					res = fmt.Sprintf("err:row-of-other-key(id=%d,v=%s)", row.ID, row.V)
 				case err == sql.ErrNoRows:
@@ -131,7 +133,7 @@ func readersScenario(name, mode string, readers []readerSpec) vx.Scenario {
 			}
 		}
 		vsched.Log("N %d", gets)
-		vsched.Log("F %s", strings.ReplaceAll(dumpString(env.contents()), " ", "|"))
+		vsched.Log("F %s", strings.ReplaceAll(dumpString(env.single.contents()), " ", "|"))
 	}
 
 	keyOf := map[string]string{}
@@ -187,6 +189,16 @@ func readersScenario(name, mode string, readers []readerSpec) vx.Scenario {
 				return vx.Verdict{Class: "concurrent-db-queries-one-key", Msg: fmt.Sprintf("%s database queries of key %s were in flight at the same time", g, k)}
 			}
 		}
+		if mode == cacheDown {
+			if len(qorder) > 0 {
+				return vx.Verdict{Class: "db-queried-during-cache-outage:concurrent", Msg: fmt.Sprintf("%d database queries ran while the cache store was failing", len(qorder))}
+			}
+			for rd, res := range result {
+				if !strings.HasPrefix(res, "err:") {
+					return vx.Verdict{Class: "cache-outage-not-reported:concurrent", Msg: fmt.Sprintf("reader %s returned %s during a cache-store outage", rd, res)}
+				}
+			}
+		}
 		ownQueries := map[string]int{}
 		perKey := map[string]int{}
 		cacheable := map[string]int{} // per key: log position at which a cacheable (row / not-found) query ended
@@ -216,16 +228,6 @@ func readersScenario(name, mode string, readers []readerSpec) vx.Scenario {
 				return vx.Verdict{Class: "read-queries-twice", Msg: fmt.Sprintf("reader %s ran %d database queries in one read", rd, n)}
 			}
 		}
-		if mode == cacheDown {
-			if len(qorder) > 0 {
-				return vx.Verdict{Class: "db-queried-during-cache-outage:concurrent", Msg: fmt.Sprintf("%d database queries ran while the cache store was failing", len(qorder))}
-			}
-			for rd, res := range result {
-				if !strings.HasPrefix(res, "err:") {
-					return vx.Verdict{Class: "cache-outage-not-reported:concurrent", Msg: fmt.Sprintf("reader %s returned %s during a cache-store outage", rd, res)}
-				}
-			}
-		}
 		// every reader receives the result of a query that ran during its call (its own or a shared
 		// flight's), or the cached outcome of an earlier one
 		shape := []string{}
@@ -249,7 +251,15 @@ func readersScenario(name, mode string, readers []readerSpec) vx.Scenario {
 					}
 				}
 			}
+			if src == nil && res == "err:empty-row" {
+				return vx.Verdict{Class: "reader-returns-empty-row", Msg: fmt.Sprintf("reader %s (key %s) returned success with an empty row: the result of the flight it shared was not handed over", rd, keyOf[rd])}
+			}
 			if src == nil {
+				for _, q := range qorder {
+					if q.key != keyOf[rd] && (q.res == res || strings.HasPrefix(res, "err:row-of-other-key")) {
+						return vx.Verdict{Class: "result-of-other-key", Msg: fmt.Sprintf("reader %s (key %s) returned %s, produced by query %s of key %s", rd, keyOf[rd], res, q.id, q.key)}
+					}
+				}
 				return vx.Verdict{Class: "result-of-no-query", Msg: fmt.Sprintf("reader %s (key %s) returned %s, which no database query of that key produced before it returned", rd, keyOf[rd], res)}
 			}
 			// the flight of a query is the call of the reader that ran it
